@@ -25,9 +25,10 @@ pub const ALPN_QUIC_HTTP11C: &[&[u8]] = &[b"h11c"]; //this is not regular HTTP3 
 
 pub fn create_quic_server(tls: &TlsServerConfig) -> Result<ServerConfig, Error> {
     let (certs, key) = tls.certs()?;
+    // honour tls.client (client certificate policy) like the http and socks listeners do
     let mut server_crypto = rustls::ServerConfig::builder()
         .with_safe_defaults()
-        .with_no_client_auth()
+        .with_client_cert_verifier(tls.client_auth()?)
         .with_single_cert(certs, key)
         .context("load certificate")?;
     server_crypto.alpn_protocols = ALPN_QUIC_HTTP11C.iter().map(|&x| x.into()).collect();
